@@ -32,15 +32,18 @@ use radicle_crypto::test::signer::MockSigner;
 
 const ROOT: &str = "refs/rad/root";
 /// names sorting below / above refs/rad/root, each list sorted by bytes
-const LOW: [&[&str]; 3] = [
+const LOW: [&[&str]; 4] = [
     &["refs/cobs/xyz.radicle.issue/d1", "refs/heads/a", "refs/heads/b/c", "refs/heads/master", "refs/notes/commits"],
     &["refs/heads/-x", "refs/heads/@", "refs/heads/a.b@c", "refs/heads/a{b", "refs/heads/x.loc"],
     &["refs/heads/A", "refs/heads/a\u{a0}b", "refs/heads/feature/\u{fc}/1", "refs/heads/z\u{2028}", "refs/rad/id"],
+    // the storage's own special names and look-alikes
+    &["refs/cobs/rad/sigrefs", "refs/heads/rad/sigrefs", "refs/heads/sigrefs", "refs/notes/rad", "refs/rad/id"],
 ];
-const HIGH: [&[&str]; 3] = [
+const HIGH: [&[&str]; 4] = [
     &["refs/rad/sigrefs2", "refs/tags/v1.0", "refs/tags/v1.0.1", "refs/tags/v2", "refs/y"],
     &["refs/rad/root-", "refs/rad/root/x", "refs/rad/rootx", "refs/tags/-", "refs/tags/v@1"],
     &["refs/rad/s", "refs/tags/a+b", "refs/tags/a=b", "refs/tags/\u{e9}", "refs/z\u{7fe}"],
+    &["refs/rad/sigrefs", "refs/rad/sigrefs-x", "refs/rad/sigrefs/y", "refs/tags/sigrefs", "refs/xrad/sigrefs"],
 ];
 const BAD_NAMES: [&str; 10] = [
     "refs/heads/a b", "refs/heads/a..b", "refs/heads/x.lock", "refs/heads/", "refs//x", "refs/heads/a\tb", "refs/heads/@{x",
@@ -183,16 +186,16 @@ fn oid_of(o: i64, this: Oid, other: Oid) -> Oid {
 fn names(nn: usize, root: usize, variety: usize) -> Vec<String> {
     let mut v: Vec<String> = Vec::new();
     if root == 0 {
-        let lo = LOW[variety % 3];
-        let hi = HIGH[variety % 3];
+        let lo = LOW[variety % 4];
+        let hi = HIGH[variety % 4];
         let all: Vec<&str> = lo.iter().chain(hi.iter()).cloned().collect();
         if nn > all.len() {
             fatal("too many names");
         }
         return all[..nn].iter().map(|s| s.to_string()).collect();
     }
-    let lo = LOW[variety % 3];
-    let hi = HIGH[variety % 3];
+    let lo = LOW[variety % 4];
+    let hi = HIGH[variety % 4];
     if root - 1 > lo.len() || nn - root > hi.len() {
         fatal("too many names");
     }
